@@ -267,6 +267,9 @@ impl NodeRec {
 pub struct TokRec {
     /// a value of a type without destructor: drops are not observable
     pub untracked: bool,
+    /// a zero-sized value: it has no identity, so all of them share one shape and
+    /// are accounted for as a pool
+    pub zst: bool,
     /// the child that produced it; None for harness-side composites
     pub producer: Option<NodeId>,
     pub drops: u32,
@@ -407,6 +410,8 @@ pub struct World {
     pub leaves: Vec<NodeId>,
     /// the groups driver judges group nodes with its own model
     pub group_model: bool,
+    /// zero-sized values that are alive (handles of the tokens behind them)
+    pub zst_pool: Vec<u32>,
     /// co-stream bookkeeping lives here too (see costream.rs)
     pub co: crate::costream::CoLog,
 }
@@ -450,12 +455,69 @@ pub fn new_composite(kind: TokKind) -> Val {
         let born = w.tick();
         w.toks.push(TokRec {
             untracked: false,
+            zst: false,
             producer: None,
             drops: 0,
             born,
             kind,
         });
         Val { id }
+    })
+}
+
+/// the one shape all zero-sized values share
+pub const ZST_SHAPE: u32 = 0xFFFF_FF00;
+
+/// A value is turned into a zero-sized one: it loses its identity.
+pub fn mark_zst(id: u32) {
+    with(|w| {
+        let idx = crate::val::index_of(id);
+        let Some(t) = w.toks.get_mut(idx) else { return };
+        t.zst = true;
+        let producer = t.producer;
+        w.zst_pool.push(id);
+        // the producing child's recorded answer must show the same shape
+        fn patch(s: &mut Shape, id: u32) {
+            match s {
+                Shape::T(t) if *t == id => *t = ZST_SHAPE,
+                Shape::L(v) => v.iter_mut().for_each(|x| patch(x, id)),
+                Shape::Ok(x) | Shape::Err(x) | Shape::P(_, x) => patch(x, id),
+                _ => {}
+            }
+        }
+        if let Some(n) = producer {
+            if let Some(p) = w.nodes[n].polls.last_mut() {
+                match &mut p.answer {
+                    Answer::Ready(s) | Answer::Item(s) => patch(s, id),
+                    _ => {}
+                }
+            }
+        }
+    })
+}
+
+/// A zero-sized value was dropped: any one of the live ones.
+pub fn zst_dropped() {
+    let _ = try_with(|w| match w.zst_pool.pop() {
+        Some(id) => w.tok_dropped(id),
+        None => {
+            w.unknown_tok_drops += 1;
+            w.violate(Oracle::DV, "a zero-sized value was dropped although every one that a child produced had already been dropped or returned (dropped twice, or invented)".into());
+        }
+    });
+}
+
+/// A zero-sized value came back from the combinator: adopt one of the live ones.
+pub fn zst_adopt() -> Val {
+    with(|w| match w.zst_pool.pop() {
+        Some(id) => Val { id },
+        None => {
+            w.violate(Oracle::DV, "the combinator returned a zero-sized value although every one that a child produced had already been dropped or returned (invented, or returned twice)".into());
+            let id = crate::val::handle_of(w.toks.len());
+            let born = w.tick();
+            w.toks.push(TokRec { untracked: false, zst: false, producer: None, drops: 0, born, kind: TokKind::Plain });
+            Val { id }
+        }
     })
 }
 
@@ -468,6 +530,7 @@ impl World {
         match self.toks.get(crate::val::index_of(id)) {
             None => Shape::Unknown(id),
             Some(_) if depth > 14 => Shape::Unknown(id),
+            Some(t) if t.zst => Shape::T(ZST_SHAPE),
             Some(t) => match &t.kind {
                 TokKind::Plain => Shape::T(id),
                 TokKind::List(v) => Shape::L(v.iter().map(|x| self.shape_of(*x, depth + 1)).collect()),
@@ -622,6 +685,7 @@ impl World {
         let born = self.tick();
         self.toks.push(TokRec {
             untracked: false,
+            zst: false,
             producer: Some(producer),
             drops: 0,
             born,
